@@ -53,6 +53,7 @@ type Batch struct {
 	Files    [][]byte `json:"files"`    // descriptor protos handed to the generator (wire form), dependency order
 	Expected [][]byte `json:"expected"` // what each generated package must register (Files minus source info and source-retention options)
 	Names    bool     `json:"names"`    // field names are from the plain vocabulary: Get/Set/Has/Clear + GoCamelCase(name) are the accessors
+	WKT      bool     `json:"wkt"`      // the set uses well-known message types (their JSON forms are constrained: no model comparison after a JSON round trip)
 }
 
 // Req is one request line.
@@ -79,10 +80,10 @@ type Resp struct {
 }
 
 type state struct {
-	batch    Batch
-	files    []*descriptorpb.FileDescriptorProto
-	regI     *protoregistry.Files // descriptors built from the input protos (protodesc), independent of the generated ones
-	dynTypes *protoregistry.Types // dynamicpb types over the GENERATED descriptors
+	batch Batch
+	files []*descriptorpb.FileDescriptorProto
+	regI  *protoregistry.Files // descriptors built from the input protos (protodesc), independent of the generated ones
+	ready bool
 }
 
 // Main is the whole program.
@@ -276,11 +277,7 @@ func (st *state) init() (*Resp, error) {
 			return nil, err
 		}
 	}
-	ts, err := schema.Types(protoregistry.GlobalFiles, st.files)
-	if err != nil {
-		return nil, fmt.Errorf("harness: %v", err)
-	}
-	st.dynTypes = ts
+	st.ready = true
 	return res, nil
 }
 
@@ -310,7 +307,7 @@ func hasLazy(md protoreflect.MessageDescriptor, seen map[protoreflect.FullName]b
 
 // Case compares the generated type of q.Msg with dynamicpb and with the model.
 func (st *state) Case(q Req) (*Resp, error) {
-	if st.dynTypes == nil {
+	if !st.ready {
 		if _, err := st.init(); err != nil {
 			return nil, fmt.Errorf("init: %v", err)
 		}
@@ -340,7 +337,7 @@ func (st *state) Case(q Req) (*Resp, error) {
 	if err := model.Apply(g, v, nil); err != nil {
 		return nil, fmt.Errorf("generated: filling the message through protoreflect: %v", err)
 	}
-	if err := model.Apply(d, v, st.dynTypes); err != nil {
+	if err := model.Apply(d, v, nil); err != nil {
 		return nil, fmt.Errorf("harness: dynamicpb: %v", err)
 	}
 	if err := ops.Verify(g, v); err != nil {
@@ -383,7 +380,7 @@ func (st *state) Case(q Req) (*Resp, error) {
 		return nil, fmt.Errorf("Marshal verdicts differ: generated %v, dynamicpb %v", errG, errD)
 	}
 	uoG := proto.UnmarshalOptions{AllowPartial: true, NoLazyDecoding: q.NoLazy}
-	uoD := proto.UnmarshalOptions{AllowPartial: true, Resolver: st.dynTypes}
+	uoD := proto.UnmarshalOptions{AllowPartial: true}
 	if errG != nil {
 		if !q.Bad8 {
 			return nil, fmt.Errorf("Marshal fails on valid content: %v", errG)
@@ -448,7 +445,7 @@ func (st *state) Case(q Req) (*Resp, error) {
 	// ---- JSON and text
 	if !q.Bad8 {
 		jg, eg := protojson.MarshalOptions{AllowPartial: true}.Marshal(g.Interface())
-		jd, ed := protojson.MarshalOptions{AllowPartial: true, Resolver: st.dynTypes}.Marshal(d.Interface())
+		jd, ed := protojson.MarshalOptions{AllowPartial: true}.Marshal(d.Interface())
 		if (eg == nil) != (ed == nil) {
 			return nil, fmt.Errorf("protojson.Marshal verdicts differ: generated %v, dynamicpb %v", eg, ed)
 		}
@@ -462,7 +459,7 @@ func (st *state) Case(q Req) (*Resp, error) {
 			}
 			g3, d3 := newG(), newD()
 			eg := protojson.UnmarshalOptions{AllowPartial: true}.Unmarshal(jd, g3.Interface())
-			ed := protojson.UnmarshalOptions{AllowPartial: true, Resolver: st.dynTypes}.Unmarshal(jg, d3.Interface())
+			ed := protojson.UnmarshalOptions{AllowPartial: true}.Unmarshal(jg, d3.Interface())
 			if (eg == nil) != (ed == nil) {
 				return nil, fmt.Errorf("protojson.Unmarshal verdicts differ: generated %v, dynamicpb %v (input %s)", eg, ed, jg)
 			}
@@ -470,14 +467,14 @@ func (st *state) Case(q Req) (*Resp, error) {
 				if s := model.Diff(mdI, model.Snapshot(d3), model.Snapshot(g3), eqBits, nil); s != "" {
 					return nil, fmt.Errorf("protojson.Unmarshal: dynamicpb vs generated: %s (input %s)", s, jg)
 				}
-				if s := model.Diff(mdI, v, model.Snapshot(g3), model.EqualOpts{IgnoreUnknown: true}, nil); s != "" {
+				if s := model.Diff(mdI, v, model.Snapshot(g3), model.EqualOpts{IgnoreUnknown: true}, nil); s != "" && !st.batch.WKT {
 					return nil, fmt.Errorf("generated: JSON round trip differs from the model: %s (JSON %s)", s, jg)
 				}
 				res.JSON = true
 			}
 		}
 		tg, eg := prototext.MarshalOptions{AllowPartial: true}.Marshal(g.Interface())
-		td, ed := prototext.MarshalOptions{AllowPartial: true, Resolver: st.dynTypes}.Marshal(d.Interface())
+		td, ed := prototext.MarshalOptions{AllowPartial: true}.Marshal(d.Interface())
 		if (eg == nil) != (ed == nil) {
 			return nil, fmt.Errorf("prototext.Marshal verdicts differ: generated %v, dynamicpb %v", eg, ed)
 		}
@@ -487,7 +484,7 @@ func (st *state) Case(q Req) (*Resp, error) {
 			}
 			g3, d3 := newG(), newD()
 			eg := prototext.UnmarshalOptions{AllowPartial: true}.Unmarshal(td, g3.Interface())
-			ed := prototext.UnmarshalOptions{AllowPartial: true, Resolver: st.dynTypes}.Unmarshal(tg, d3.Interface())
+			ed := prototext.UnmarshalOptions{AllowPartial: true}.Unmarshal(tg, d3.Interface())
 			if (eg == nil) != (ed == nil) {
 				return nil, fmt.Errorf("prototext.Unmarshal verdicts differ: generated %v, dynamicpb %v (input %s)", eg, ed, tg)
 			}
@@ -516,7 +513,7 @@ func (st *state) Case(q Req) (*Resp, error) {
 			}
 		} else {
 			model.Apply(g4, v, nil)
-			model.Apply(d4, v, st.dynTypes)
+			model.Apply(d4, v, nil)
 		}
 		for i, op := range q.Ops {
 			if err := ops.ApplyModel(mdI, cur, op); err != nil {
